@@ -122,10 +122,6 @@ contract(M + "Background.all_steps", props=P, params={"self": "ref:Background"},
          result="seq:ref:Step", modifies=STEP_RESET_FIELDS + ["self._inherited_steps"], ensures=ALLB_ENS)
 
 # -- skipping a scenario: every step that was not executed (background steps included) is left skipped ----------------
-contract("abs:TagAndStatusStatement.clear_status", trusted=True, params={"self": "ref:TagAndStatusStatement"}, pos_params=["self"],
-         modifies=["self._cached_status"], doc="forget the cached roll-up status")
-contract("abs:TagAndStatusStatement.set_status", trusted=True, params={"self": "ref:TagAndStatusStatement"},
-         pos_params=["self", "value"], modifies=["self._cached_status"], doc="store a roll-up status")
 ALLS = "as_list(all_steps_of(self), 'ref:Step')"
 contract(M + "Scenario.skip", props=P + ["C09"], params={"self": "ref:Scenario", "reason": "opt:str", "require_not_executed": "bool"},
          self_classes=["Scenario"], assert_raises=True, allow_raises=["AssertionError"],
